@@ -7,6 +7,7 @@ or declared before; the cache only ever holds sound entries, a hit returns the
 stored (sound) entry, failures are never cached.
 -/
 import QuantityModel.Proofs.UnitOps
+import QuantityModel.Proofs.Scale
 namespace QM.Props.C17
 open QM QM.QState
 
@@ -74,5 +75,39 @@ theorem failure_not_cached (s : QState) (u v : Nat) (e : Err)
     split
     · rfl
     · rename_i h1 _ _ h2; simp [h1, h2] at h
+
+/-- in every registry reachable by well-formed declarations (any order, rejected
+attempts included) with a sound operation cache, the result of `u * v` is worth
+exactly the product of the two stored scales: `f · scale(w) = scale(u) · scale(v)` -/
+theorem product_value_is_product_of_scales (s : QState) (hR : ReachableWF s.reg)
+    (hC : CacheSound s.reg s.reg.nu) (u v : Nat) (f : ℚ) (w : Option Nat)
+    (h : (s.mulUnits u v).2 = .ok (f, w)) :
+    f * optVal s.reg.nu w = s.reg.nu u * s.reg.nu v :=
+  (mulUnits_sound s s.reg.nu (admissible_nu s.reg (reachableWF_scaleInv hR))
+    (reachable_dirInv hR.reachable).termMapSound hC u v).1 f w h
+
+theorem quotient_value_is_quotient_of_scales (s : QState) (hR : ReachableWF s.reg)
+    (hC : CacheSound s.reg s.reg.nu) (u v : Nat) (f : ℚ) (w : Option Nat)
+    (hlin : s.reg.unitCls u = s.reg.unitCls v → (s.reg.cls (s.reg.unitCls u)).refUnit.isSome = true)
+    (h : (s.divUnits u v).2 = .ok (f, w)) :
+    f * optVal s.reg.nu w = s.reg.nu u / s.reg.nu v :=
+  (divUnits_sound s s.reg.nu (admissible_nu s.reg (reachableWF_scaleInv hR))
+    (reachable_dirInv hR.reachable).termMapSound hC u v hlin).1 f w h
+
+/-- **whichever order types and units were declared in**: two registries reached
+by ANY two declaration sequences (so the same unit may carry different ids:
+`u₁ ↔ u₂`, `v₁ ↔ v₂`), whatever was evaluated before (sound caches): if the
+operands have the same scales in both — which their definitions fix (C15:
+`scale_of_multiple`, `scale_of_term_definition`, `scale_of_derived_unit`) —
+successful products have the same value in reference units -/
+theorem value_independent_of_declaration_order (s₁ s₂ : QState)
+    (hR₁ : ReachableWF s₁.reg) (hR₂ : ReachableWF s₂.reg)
+    (hC₁ : CacheSound s₁.reg s₁.reg.nu) (hC₂ : CacheSound s₂.reg s₂.reg.nu)
+    (u₁ v₁ u₂ v₂ : Nat) (hu : s₁.reg.nu u₁ = s₂.reg.nu u₂) (hv : s₁.reg.nu v₁ = s₂.reg.nu v₂)
+    (f₁ f₂ : ℚ) (w₁ w₂ : Option Nat)
+    (h₁ : (s₁.mulUnits u₁ v₁).2 = .ok (f₁, w₁)) (h₂ : (s₂.mulUnits u₂ v₂).2 = .ok (f₂, w₂)) :
+    f₁ * optVal s₁.reg.nu w₁ = f₂ * optVal s₂.reg.nu w₂ := by
+  rw [product_value_is_product_of_scales s₁ hR₁ hC₁ u₁ v₁ f₁ w₁ h₁,
+      product_value_is_product_of_scales s₂ hR₂ hC₂ u₂ v₂ f₂ w₂ h₂, hu, hv]
 
 end QM.Props.C17
